@@ -178,17 +178,19 @@ def removeTier (n : String) : M (Tg α) (AnyTier α) := do
     set { self with tiers := self.tiers.filter (·.name != n) }
     pure t
 
-/-- `Textgrid.addTier(tier, tierIndex, reportingMode)`, textgrid.py L86-152 -/
-def addTier (t : AnyTier α) (idx : Option Int) (rep : Report) : M (Tg α) Unit := do
+/-- `Textgrid.addTier`, first part, textgrid.py L117-134: the checks (nothing is written) -/
+def addTierChecks (t : AnyTier α) (rep : Report) : M (Tg α) Unit := do
   let self ← get
   -- L117-118  if tier.name in self.tierNames: raise TierNameExistsError
-  if self.names.contains t.name then throw .TierNameExistsError else pure ()
+  (if self.names.contains t.name then throw .TierNameExistsError else pure ())
   -- L122-127  minV = tier.minTimestamp; if self.minTimestamp is not None and minV < self.minTimestamp: errorReporter(...)
-  let minV := t.lo
-  if (match self.lo with | some l => decide (minV < l) | none => false) then report rep .TextgridStateAutoModified else pure ()
-  -- L129-134
-  let maxV := t.hi
-  if (match self.hi with | some h => decide (h < maxV) | none => false) then report rep .TextgridStateAutoModified else pure ()
+  (if (match self.lo with | some l => decide (t.lo < l) | none => false) then report rep .TextgridStateAutoModified else pure ())
+  -- L129-134  maxV = tier.maxTimestamp; if self.maxTimestamp is not None and maxV > self.maxTimestamp: errorReporter(...)
+  (if (match self.hi with | some h => decide (h < t.hi) | none => false) then report rep .TextgridStateAutoModified else pure ())
+
+/-- `Textgrid.addTier`, second part, textgrid.py L136-146: the tier enters `_tierDict` -/
+def addTierStore (t : AnyTier α) (idx : Option Int) : M (Tg α) Unit := do
+  let self ← get
   match idx with
   | none =>
     -- L136-137  self._tierDict[tier.name] = tier
@@ -203,12 +205,21 @@ def addTier (t : AnyTier α) (idx : Option Int) (rep : Report) : M (Tg α) Unit 
     let newTierDict ← liftE (order.mapM g1.getTier)
     -- L146  self._tierDict = newTierDict
     modify fun g => { g with tiers := newTierDict }
+
+/-- `Textgrid.addTier`, third part, textgrid.py L148-152: the span follows -/
+def addTierSpan (t : AnyTier α) : M (Tg α) Unit := do
   -- L148-149  if self.minTimestamp is None or minV < self.minTimestamp: self.minTimestamp = minV
   let g2 ← get
-  if (match g2.lo with | some l => decide (minV < l) | none => true) then modify fun g => { g with lo := some minV } else pure ()
-  -- L151-152
+  (if (match g2.lo with | some l => decide (t.lo < l) | none => true) then modify fun g => { g with lo := some t.lo } else pure ())
+  -- L151-152  if self.maxTimestamp is None or maxV > self.maxTimestamp: self.maxTimestamp = maxV
   let g3 ← get
-  if (match g3.hi with | some h => decide (h < maxV) | none => true) then modify fun g => { g with hi := some maxV } else pure ()
+  (if (match g3.hi with | some h => decide (h < t.hi) | none => true) then modify fun g => { g with hi := some t.hi } else pure ())
+
+/-- `Textgrid.addTier(tier, tierIndex, reportingMode)`, textgrid.py L86-152 -/
+def addTier (t : AnyTier α) (idx : Option Int) (rep : Report) : M (Tg α) Unit := do
+  addTierChecks t rep     -- L117-134
+  addTierStore t idx      -- L136-146
+  addTierSpan t           -- L148-152
 
 /-- `Textgrid.renameTier(oldName, newName)`, textgrid.py L517-523 -/
 def renameTier (old new : String) : M (Tg α) Unit := do
@@ -220,7 +231,7 @@ def renameTier (old new : String) : M (Tg α) Unit := do
     | some i => pure (i : Int)
     | none => throw .ValueError
   -- L520-521  if newName != oldName and newName in self.tierNames: raise TierNameExistsError
-  if new != old && self.names.contains new then throw .TierNameExistsError else pure ()
+  (if new != old && self.names.contains new then throw .TierNameExistsError else pure ())
   -- L522  self.removeTier(oldName)
   let _ ← removeTier old
   -- L523  self.addTier(oldTier.new(newName, oldTier.entries), tierIndex):  the argument (a constructor call, which
